@@ -597,6 +597,7 @@ class Process:
         checking whether PID has been reused.
         If no parent is known return None.
         """
+        self._raise_if_pid_reused()
         lowest_pid = _LOWEST_PID if _LOWEST_PID is not None else pids()[0]
         if self.pid == lowest_pid:
             return None
